@@ -118,8 +118,8 @@ package types
 //@ spec sumTo(s Slice, e IntRefArr, p RefIntArr, k Int) Int
 //@ define totalPower(vs *ValidatorSet) Int = sumTo(vs.Validators, elems(vs.Validators), heap(Validator.VotingPower), len(vs.Validators))
 
-//@ pred wfValSet(vs *ValidatorSet) = vs != nil && forall(p, off(vs.Validators), off(vs.Validators) + len(vs.Validators), at(vs.Validators, p) != nil && at(vs.Validators, p).VotingPower >= 0) \
-//@      && (vs.totalVotingPower == 0 || vs.totalVotingPower == totalPower(vs))
+//@ pred wfVals(vs *ValidatorSet) = vs != nil && forall(p, off(vs.Validators), off(vs.Validators) + len(vs.Validators), at(vs.Validators, p) != nil && at(vs.Validators, p).VotingPower >= 0)
+//@ pred wfValSet(vs *ValidatorSet) = wfVals(vs) && (vs.totalVotingPower == 0 || vs.totalVotingPower == totalPower(vs))
 
 //@ func (*ValidatorSet).Size
 //@   props C15 C14 C16
@@ -465,6 +465,13 @@ package types
 //@   ensures  [grows-by-one] added ==> len(valSet.Validators) == old(len(valSet.Validators)) + 1
 //@   ensures  [not-added-unchanged] !added ==> valSet.Validators == old(valSet.Validators) && valSet.proposer == old(valSet.proposer) && valSet.totalVotingPower == old(valSet.totalVotingPower)
 //@   ensures  wfValSet(valSet)
+//@   invariant-assumed sortedVS(valSet)
+//@   let n0 = old(len(valSet.Validators))
+//@   ensures  [insert-position] added ==> 0 <= idx && idx <= n0 && forall(j, 0, idx, bytesCmp(old(valSet.Validators[j].Address), val.Address) < 0) && forall(j, idx, n0, bytesCmp(val.Address, old(valSet.Validators[j].Address)) < 0)
+//@   ensures  [insert-shifts] added ==> forall(j, 0, idx, valSet.Validators[j] == old(valSet.Validators[j])) && forall(j, idx + 1, n0 + 1, valSet.Validators[j] == old(valSet.Validators[j-1])) && valSet.Validators[idx].Address == val.Address
+//@   ensures  [stays-sorted-and-duplicate-free] sortedVS(valSet)
+//@   ensures  [added-iff-address-absent] added == !old(exists(j, 0, len(valSet.Validators), bytesEq(valSet.Validators[j].Address, val.Address)))
+//@   ensures  [added-is-a-private-copy] added ==> exists(m, 0, len(valSet.Validators), fresh(valSet.Validators[m]) && bytesEq(valSet.Validators[m].Address, val.Address) && valSet.Validators[m].VotingPower == val.VotingPower && valSet.Validators[m].Accum == val.Accum)
 
 //@ func (*ValidatorSet).Update
 //@   props C14 C16
@@ -474,6 +481,9 @@ package types
 //@   ensures  [same-size] len(valSet.Validators) == old(len(valSet.Validators))
 //@   ensures  [not-updated-unchanged] !updated ==> valSet.proposer == old(valSet.proposer) && valSet.totalVotingPower == old(valSet.totalVotingPower)
 //@   ensures  wfValSet(valSet)
+//@   invariant-assumed sortedVS(valSet)
+//@   ensures  [stays-sorted-and-duplicate-free] sortedVS(valSet)
+//@   ensures  [updated-is-a-private-copy] updated ==> exists(m, 0, len(valSet.Validators), fresh(valSet.Validators[m]) && bytesEq(valSet.Validators[m].Address, val.Address) && valSet.Validators[m].VotingPower == val.VotingPower && valSet.Validators[m].Accum == val.Accum)
 
 //@ func (*ValidatorSet).Remove
 //@   props C14 C16
@@ -483,6 +493,9 @@ package types
 //@   ensures  [shrinks-by-one] removed ==> len(valSet.Validators) == old(len(valSet.Validators)) - 1 && val != nil && bytesEq(val.Address, address)
 //@   ensures  [not-removed-unchanged] !removed ==> valSet.Validators == old(valSet.Validators) && valSet.proposer == old(valSet.proposer) && valSet.totalVotingPower == old(valSet.totalVotingPower)
 //@   ensures  wfValSet(valSet)
+//@   invariant-assumed sortedVS(valSet)
+//@   ensures  [stays-sorted-and-duplicate-free] sortedVS(valSet)
+//@   ensures  [removed-address-gone] removed ==> forall(j, 0, len(valSet.Validators), !bytesEq(valSet.Validators[j].Address, address))
 
 // ---------------------------------------------------------------------------------------------
 // blocks (C02, C04, C08)
@@ -612,3 +625,103 @@ package types
 //@            && unbox(arg_o, CanonicalJSONOnceProposal).Proposal.POLRound == p.POLRound && unbox(arg_o, CanonicalJSONOnceProposal).Proposal.BlockPartsHeader.Total == p.BlockPartsHeader.Total \
 //@            && unbox(arg_o, CanonicalJSONOnceProposal).Proposal.BlockPartsHeader.Hash == p.BlockPartsHeader.Hash && unbox(arg_o, CanonicalJSONOnceProposal).Proposal.POLBlockID.Hash == p.POLBlockID.Hash
 //@   ensures  calls(WriteJSON) == 1
+
+// ---------------------------------------------------------------------------------------------
+// proposer rotation (C16)
+
+// the validators are kept strictly sorted by address (hence duplicate-free, and the pointers pairwise distinct)
+//@ pred sortedVS(vs *ValidatorSet) = forall(j, 0, len(vs.Validators), forall(k, 0, len(vs.Validators), j < k ==> bytesCmp(vs.Validators[j].Address, vs.Validators[k].Address) < 0))
+//@ pred isValOf(vs *ValidatorSet, r Ref, hi Int) = exists(j, 0, hi, vs.Validators[j] == r)
+
+// accumComparable.Less is "greater accum first"
+//@ axiom accumPrio: forall(p, Iface, forall(q, Iface, trigger(prioLess(p, q)), typeIs(p, accumComparable) && typeIs(q, accumComparable) ==> prioLess(p, q) == (unbox(p, accumComparable) > unbox(q, accumComparable))))
+
+// v is preferred to w by CompareAccum: greater accum, ties to the lower address
+//@ pred beatsAccum(v *Validator, w *Validator) = v.Accum > w.Accum || (v.Accum == w.Accum && bytesCmp(v.Address, w.Address) < 0)
+
+//@ func (*Validator).CompareAccum
+//@   props C16
+//@   requires other != nil
+//@   aborts when v != nil && v.Accum == other.Accum && bytesCmp(v.Address, other.Address) == 0
+//@   pure
+//@   ensures  [nil-loses] v == nil ==> result == other
+//@   ensures  [greater-accum-then-lower-address] v != nil ==> result == ite(beatsAccum(v, other), v, other)
+
+//@ func (*ValidatorSet).Proposer
+//@   props C16
+//@   requires valSet != nil
+//@   invariant-assumed wfValSet(valSet) && sortedVS(valSet)
+//@   assigns  valSet.proposer
+//@   let n = len(valSet.Validators)
+//@   ensures  [empty-set-no-proposer] (proposer == nil) == (n == 0) && (n == 0 ==> valSet.proposer == old(valSet.proposer))
+//@   ensures  [cached-proposer-kept] n > 0 && old(valSet.proposer) != nil ==> valSet.proposer == old(valSet.proposer)
+//@   ensures  [recomputed-proposer-greatest-accum-lowest-address] n > 0 && old(valSet.proposer) == nil ==> exists(m, 0, n, valSet.Validators[m] == valSet.proposer \
+//@               && forall(j, 0, n, valSet.Validators[j].Accum <= valSet.Validators[m].Accum) && forall(j, 0, m, valSet.Validators[j].Accum < valSet.Validators[m].Accum))
+//@   ensures  [returns-a-copy] n > 0 ==> proposer != nil && fresh(proposer) && proposer.Accum == valSet.proposer.Accum && proposer.VotingPower == valSet.proposer.VotingPower \
+//@               && proposer.Address == valSet.proposer.Address && proposer.PubKey == valSet.proposer.PubKey
+//@   loop 0 invariant 0 <= $i && $i <= n && ($i == 0 ==> valSet.proposer == nil)
+//@   loop 0 invariant $i > 0 ==> exists(m, 0, $i, valSet.Validators[m] == valSet.proposer \
+//@               && forall(j, 0, $i, valSet.Validators[j].Accum <= valSet.Validators[m].Accum) && forall(j, 0, m, valSet.Validators[j].Accum < valSet.Validators[m].Accum))
+
+//@ func (*ValidatorSet).Copy
+//@   props C16
+//@   requires valSet != nil
+//@   invariant-assumed wfValSet(valSet) && sortedVS(valSet)
+//@   assigns  nothing
+//@   ensures  [copy-is-fresh] result != nil && fresh(result) && fresh(result.Validators) && len(result.Validators) == len(valSet.Validators)
+//@   ensures  [validators-copied-not-shared] forall(j, 0, len(valSet.Validators), fresh(result.Validators[j]) && result.Validators[j] != nil \
+//@               && result.Validators[j].Accum == valSet.Validators[j].Accum && result.Validators[j].VotingPower == valSet.Validators[j].VotingPower \
+//@               && result.Validators[j].Address == valSet.Validators[j].Address && result.Validators[j].PubKey == valSet.Validators[j].PubKey && result.Validators[j].IsCA == valSet.Validators[j].IsCA)
+//@   ensures  [caches-copied] result.proposer == valSet.proposer && result.totalVotingPower == valSet.totalVotingPower
+//@   ensures  wfVals(result) && sortedVS(result)
+//@   loop 0 invariant 0 <= $i && $i <= len(valSet.Validators) && len(validators) == len(valSet.Validators) && fresh(validators)
+//@   loop 0 invariant forall(j, 0, $i, fresh(validators[j]) && validators[j] != nil \
+//@               && validators[j].Accum == valSet.Validators[j].Accum && validators[j].VotingPower == valSet.Validators[j].VotingPower \
+//@               && validators[j].Address == valSet.Validators[j].Address && validators[j].PubKey == valSet.Validators[j].PubKey && validators[j].IsCA == valSet.Validators[j].IsCA)
+
+//@ func (accumComparable).Less
+//@   props C16
+//@   aborts when !typeIs(o, accumComparable)
+//@   pure
+//@   ensures [greater-accum-first] result == prioLess(box(ac), o)
+
+//@ func (*ValidatorSet).incrementAccumOnce
+//@   props C16
+//@   requires valSet != nil
+//@   invariant-assumed wfValSet(valSet) && sortedVS(valSet)
+//@   assigns  heap(Validator.Accum), valSet.proposer, valSet.totalVotingPower, hpN, hpTop, hpPrio, alloftype(gcmn.Heap)
+//@   let n = len(valSet.Validators)
+//@   ensures  [empty-set-untouched] n == 0 ==> valSet.proposer == old(valSet.proposer) && heap(Validator.Accum) == old(heap(Validator.Accum))
+//@   ensures  [proposer-has-greatest-accum-lowest-address-first] n > 0 ==> exists(m, 0, n, valSet.Validators[m] == valSet.proposer \
+//@               && forall(j, 0, n, old(valSet.Validators[j].Accum) + valSet.Validators[j].VotingPower <= old(valSet.Validators[m].Accum) + valSet.Validators[m].VotingPower) \
+//@               && forall(j, 0, m, old(valSet.Validators[j].Accum) + valSet.Validators[j].VotingPower < old(valSet.Validators[m].Accum) + valSet.Validators[m].VotingPower))
+//@   ensures  [others-gain-their-power] forall(j, 0, n, valSet.Validators[j] != valSet.proposer ==> valSet.Validators[j].Accum == old(valSet.Validators[j].Accum) + valSet.Validators[j].VotingPower)
+//@   ensures  [proposer-pays-total-power] n > 0 ==> valSet.proposer.Accum == old(heap(Validator.Accum))[valSet.proposer] + valSet.proposer.VotingPower - totalPower(valSet)
+//@   ensures  [only-own-validators-change] forall(r, Ref, heap(Validator.Accum)[r] != old(heap(Validator.Accum))[r] ==> isValOf(valSet, r, n))
+// The cached proposer is not persisted (unexported field): a replica that reloads the set recomputes it in Proposer() from the
+// accums as they are after the decrement. For all replicas to agree the recomputation must give the cached validator.
+//@   ensures  [cached-proposer-survives-reload] forall(j, 0, n, valSet.Validators[j] != valSet.proposer ==> !beatsAccum(valSet.Validators[j], valSet.proposer))
+//@   ensures  wfValSet(valSet) && sortedVS(valSet)
+//@   loop 0 invariant 0 <= $i && $i <= n && hpN[validatorsHeap] == $i && validatorsHeap != nil && fresh(validatorsHeap)
+//@   loop 0 invariant valSet.proposer == old(valSet.proposer) && valSet.totalVotingPower == old(valSet.totalVotingPower)
+//@   loop 0 invariant forall(j, 0, $i, valSet.Validators[j].Accum == old(valSet.Validators[j].Accum) + valSet.Validators[j].VotingPower)
+//@   loop 0 invariant forall(j, $i, n, valSet.Validators[j].Accum == old(valSet.Validators[j].Accum))
+//@   loop 0 invariant forall(r, Ref, heap(Validator.Accum)[r] != old(heap(Validator.Accum))[r] ==> isValOf(valSet, r, $i))
+//@   loop 0 invariant $i > 0 ==> exists(m, 0, $i, hpTop[validatorsHeap] == box(valSet.Validators[m]) && hpPrio[validatorsHeap] == box(as(valSet.Validators[m].Accum, accumComparable)) \
+//@               && forall(j, 0, $i, valSet.Validators[j].Accum <= valSet.Validators[m].Accum) && forall(j, 0, m, valSet.Validators[j].Accum < valSet.Validators[m].Accum))
+
+//@ func (*ValidatorSet).IncrementAccum
+//@   props C16
+//@   requires valSet != nil
+//@   invariant-assumed wfValSet(valSet) && sortedVS(valSet)
+//@   assigns  heap(Validator.Accum), valSet.proposer, valSet.totalVotingPower, hpN, hpTop, hpPrio, alloftype(gcmn.Heap)
+//@   ensures  [batched-equals-repeated-single-rounds] calls(incrementAccumOnce) == old(calls(incrementAccumOnce)) + ite(times > 0, times, 0)
+//@   ensures  [no-round-no-change] times <= 0 ==> valSet.proposer == old(valSet.proposer) && heap(Validator.Accum) == old(heap(Validator.Accum))
+//@   ensures  [only-own-validators-change] forall(r, Ref, heap(Validator.Accum)[r] != old(heap(Validator.Accum))[r] ==> isValOf(valSet, r, len(valSet.Validators)))
+//@   ensures  wfValSet(valSet) && sortedVS(valSet)
+//@   onwrite  Validator.Accum assert false
+//@   onwrite  ValidatorSet.proposer assert false
+//@   loop 0 invariant 0 <= i && i <= ite(times > 0, times, 0) && calls(incrementAccumOnce) == old(calls(incrementAccumOnce)) + i
+//@   loop 0 invariant i == 0 ==> valSet.proposer == old(valSet.proposer) && heap(Validator.Accum) == old(heap(Validator.Accum))
+//@   loop 0 invariant forall(r, Ref, heap(Validator.Accum)[r] != old(heap(Validator.Accum))[r] ==> isValOf(valSet, r, len(valSet.Validators)))
+//@   loop 0 invariant wfValSet(valSet) && sortedVS(valSet)
